@@ -57,6 +57,45 @@ type mutInfo struct {
 // mutatedFields computes Mut(T) for every named struct type of the module.
 func mutatedFields(p *core.Program) map[*types.TypeName]map[string]mutInfo {
 	res := map[*types.TypeName]map[string]mutInfo{}
+	mutMethods = map[*types.TypeName]map[string]pointeeMutInfo{}
+	fieldCalls = map[*types.TypeName]map[string]map[string]bool{}
+	p.FuncDecls(func(pk *packages.Package, file *ast.File, fd *ast.FuncDecl) {
+		if fd.Recv == nil || fd.Body == nil || fileIsTestSupport(p, fd.Pos()) {
+			return
+		}
+		info := pk.TypesInfo
+		named, _ := core.RecvNamed(info, fd)
+		recv := recvObj(info, fd)
+		if named == nil || recv == nil {
+			return
+		}
+		tn := named.Origin().Obj()
+		ast.Inspect(fd.Body, func(x ast.Node) bool {
+			call, ok := x.(*ast.CallExpr)
+			if !ok {
+				return true
+			}
+			m, ok := unparen(call.Fun).(*ast.SelectorExpr)
+			if !ok {
+				return true
+			}
+			f, ok := unparen(m.X).(*ast.SelectorExpr)
+			if !ok {
+				return true
+			}
+			if id, ok := unparen(f.X).(*ast.Ident); !ok || info.Uses[id] != types.Object(recv) {
+				return true
+			}
+			if fieldCalls[tn] == nil {
+				fieldCalls[tn] = map[string]map[string]bool{}
+			}
+			if fieldCalls[tn][f.Sel.Name] == nil {
+				fieldCalls[tn][f.Sel.Name] = map[string]bool{}
+			}
+			fieldCalls[tn][f.Sel.Name][m.Sel.Name] = true
+			return true
+		})
+	})
 	p.FuncDecls(func(pk *packages.Package, file *ast.File, fd *ast.FuncDecl) {
 		if fd.Recv == nil || isCtorName(fd.Name.Name) || fileIsTestSupport(p, fd.Pos()) {
 			return
@@ -85,10 +124,55 @@ func mutatedFields(p *core.Program) map[*types.TypeName]map[string]mutInfo {
 				if _, ok := res[tn][r.field]; !ok {
 					res[tn][r.field] = mutInfo{w.pos, core.FuncKey(pk, fd), w.how}
 				}
+				if mutMethods[tn] == nil {
+					mutMethods[tn] = map[string]pointeeMutInfo{}
+				}
+				if _, ok := mutMethods[tn][fd.Name.Name]; !ok {
+					mutMethods[tn][fd.Name.Name] = pointeeMutInfo{mutInfo{w.pos, core.FuncKey(pk, fd), w.how}, r.field}
+				}
 			}
 		}
 	})
 	return res
+}
+
+type pointeeMutInfo struct {
+	mutInfo
+	field string
+}
+
+// mutMethods[U][M]: method M of U stores through a field of U. fieldCalls[T][F][M]: some method of T calls recv.F.M(…).
+var mutMethods map[*types.TypeName]map[string]pointeeMutInfo
+var fieldCalls map[*types.TypeName]map[string]map[string]bool
+
+// pointeeMut: for a field of type *U (U a struct type of the module), the first field of U through which a method of
+// U stores, if any.
+func pointeeMut(owner *types.TypeName, field string, ft types.Type) (*pointeeMutInfo, string) {
+	pt, ok := ft.Underlying().(*types.Pointer)
+	if !ok {
+		return nil, ""
+	}
+	n := namedOf(pt.Elem())
+	if n == nil {
+		return nil, ""
+	}
+	m := mutMethods[n.Origin().Obj()]
+	if len(m) == 0 {
+		return nil, ""
+	}
+	// only the methods the owner actually calls on the component while working
+	var keys []string
+	for k := range m {
+		if fieldCalls[owner][field][k] {
+			keys = append(keys, k)
+		}
+	}
+	if len(keys) == 0 {
+		return nil, ""
+	}
+	sortStrings(keys)
+	r := m[keys[0]]
+	return &r, n.Obj().Name()
 }
 
 func scanShared(c *core.Ctx) []ob {
@@ -180,6 +264,11 @@ func scanShared(c *core.Ctx) []ob {
 					if m, isMut := mut[cc.named.Origin().Obj()][r.field]; isMut {
 						out = append(out, withProps(violOb("SHARED", key, c.Rel(kv.Pos()),
 							fmt.Sprintf("%s hands the copy the same %s as the original (field %s = %s) although %s stores through that field (%s at %s): two goroutines, each confined to its own copy, race on it", fkey, types.TypeString(ft, func(p *types.Package) string { return p.Name() }), k.Name, exprString(kv.Value), m.fn, m.how, c.Rel(m.pos))), props...))
+					} else if pm, pt := pointeeMut(cc.named.Origin().Obj(), r.field, ft); pm != nil {
+						// the field is a pointer to a component whose own methods store through its fields: the two
+						// copies then share that component's state
+						out = append(out, withProps(violOb("SHARED", key, c.Rel(kv.Pos()),
+							fmt.Sprintf("%s hands the copy the same %s as the original (field %s = %s) although %s keeps state: %s stores through its field %s (%s at %s): two goroutines, each confined to its own copy, race on it", fkey, types.TypeString(ft, func(p *types.Package) string { return p.Name() }), k.Name, exprString(kv.Value), pt, pm.fn, pm.field, pm.how, c.Rel(pm.pos))), props...))
 					} else {
 						out = append(out, withProps(okOb("SHARED", key, c.Rel(kv.Pos()), "shared by reference and never stored through by a method of the type", true), props...))
 					}
